@@ -12,7 +12,7 @@
      preb w o     the property's precondition for o in w (Model.v, "preconditions of the property");
      Inv w        the connection invariant; [C18_invariant_meaning] spells it out. *)
 From Coq Require Import ZArith.
-From V Require Import C18.Model C18.Proofs.
+From V Require Import C18.Model C18.Proofs C18.ProofsDeep.
 Close Scope Q_scope.
 Open Scope nat_scope.
 
@@ -125,17 +125,31 @@ Theorem C18_cleared_objects_are_undocked : forall sd w u y, pfixed w sd u = fals
 Proof. exact clear_var_undocks. Qed.
 Print Assumptions C18_cleared_objects_are_undocked.
 
-(* The global form of the clause for placeholders: a placeholder that is reachable through a port list is
-   listed wherever it points.  [Inv] has this for streams (first two clauses of C18_invariant_meaning) and, for
-   placeholders, only the direction "listed => points back".  The statement below is NOT proved here (it needs
-   a second pass over every operation: garbage placeholders created by operations that raise keep a pointer,
-   so the clause has to be restricted to reachable ones); it is evaluated directly on the real objects by the
-   oracle after every operation, its decidable form [live_backb] holds along the example history, and the
-   local theorems above cover the places where the code resets the pointers. *)
-Definition Live (w : world) : Prop := forall sd v u m,
-  In (M_ m) (ports w (other sd) v) -> ptr w sd (M_ m) = Some u -> In (M_ m) (ports w sd u).
-Definition C18_placeholder_backpointer_statement : Prop :=
-  forall ops w, Inv w -> Live w -> within_pre w ops -> Live (run w ops).
+(* The global form of the clause for placeholders: a placeholder that is reachable through a port list is listed
+   wherever it points ([LiveP]; [Inv] has this for streams, and for placeholders only "listed => points back").
+   Proved for EVERY modelled operation and every history within the preconditions (ProofsDeep.v: every operation
+   has a pointer footprint [Eff] -- a pointer that dangles afterwards dangled before or belongs to a placeholder
+   the operation created itself, and an old placeholder that is listed afterwards was reachable or harmless
+   before).  [Unborn w]: placeholders that do not exist yet point nowhere; it holds in the empty world and is
+   preserved, i.e. it holds in every reachable world. *)
+Theorem C18_placeholder_backpointer_step : forall w o,
+  Inv w -> LiveP w -> Unborn w -> wfb w o = true -> preb w o = true ->
+  Inv (fst (step w o)) /\ LiveP (fst (step w o)) /\ Unborn (fst (step w o)).
+Proof. intros w o HI HL HU. apply step_Live_all. split; [exact HI | split; assumption]. Qed.
+Print Assumptions C18_placeholder_backpointer_step.
+Theorem C18_placeholder_backpointer : forall ops w,
+  Inv w -> LiveP w -> Unborn w -> within_pre w ops -> LiveP (run w ops).
+Proof. exact placeholder_backpointer. Qed.
+Print Assumptions C18_placeholder_backpointer.
+Theorem C18_placeholder_backpointer_from_scratch : forall k ops,
+  within_pre (empty_world k) ops -> LiveP (run (empty_world k) ops).
+Proof. exact placeholder_backpointer_from_scratch. Qed.
+Print Assumptions C18_placeholder_backpointer_from_scratch.
+(* ... also along histories that pass caller-owned lists *)
+Theorem C18_placeholder_backpointer_with_caller_lists : forall xs xw,
+  Inv (fst xw) -> LiveP (fst xw) -> Unborn (fst xw) -> xwithin xw xs -> LiveP (fst (xrun xw xs)).
+Proof. intros xs xw HI HL HU HW. apply (xhistory_Live xs xw); [split; [exact HI | split; assumption] | exact HW]. Qed.
+Print Assumptions C18_placeholder_backpointer_with_caller_lists.
 
 (* ---------------------------------------------------------------- examples *)
 Ltac within_tac := vm_compute; repeat split; reflexivity.
@@ -167,6 +181,15 @@ Example C18_caller_lists_nonvacuous :
 Proof.
   cbv zeta. assert (H : xwithin (empty_world 5, [[IReal 0; IReal 1]; [IReal 3; INone]]) xdemo) by within_tac.
   split; [exact H | apply xhistory_Inv; [apply Inv_empty | exact H]].
+Qed.
+Example C18_placeholder_backpointer_nonvacuous :
+  Inv U3 /\ LiveP U3 /\ Unborn U3 /\ within_pre U3 demo /\ LiveP (run U3 demo).
+Proof.
+  assert (H0 : within_pre (empty_world 5) setup3) by within_tac.
+  assert (L0 : InvL U3) by (apply (history_Live_all setup3 (empty_world 5)); [apply InvL_empty | exact H0]).
+  destruct L0 as (HI & HL & HU).
+  assert (H : within_pre U3 demo) by within_tac.
+  split; [exact HI|]. split; [exact HL|]. split; [exact HU|]. split; [exact H|]. now apply placeholder_backpointer.
 Qed.
 Example C18_placeholder_backpointer_holds_along_demo :
   forallb (fun n => live_backb (run U3 (firstn n demo))) (seq 0 (S (length demo))) = true.
